@@ -660,6 +660,38 @@ pub fn enum_tree(i: u64) -> Option<Expr> {
     None
 }
 
+/// thorough tier: every chain of four binary operators over five leaves in six nestings (16^4 x 6 trees)
+pub fn enum4_count() -> u64 {
+    let n = BinOp::ALL.len() as u64;
+    n * n * n * n * 6
+}
+
+pub fn enum4_tree(i: u64) -> Option<Expr> {
+    if i >= enum4_count() {
+        return None;
+    }
+    let n = BinOp::ALL.len() as u64;
+    let shape = i % 6;
+    let mut k = i / 6;
+    let o1 = BinOp::ALL[(k % n) as usize];
+    k /= n;
+    let o2 = BinOp::ALL[(k % n) as usize];
+    k /= n;
+    let o3 = BinOp::ALL[(k % n) as usize];
+    k /= n;
+    let o4 = BinOp::ALL[(k % n) as usize];
+    let l = |s: &str| Expr::name(s);
+    let (a, b, c, d, e) = (l("a"), Expr::num(2.0), l("c"), Expr::Str(b"s".to_vec(), String::new()), l("e"));
+    Some(match shape {
+        0 => Expr::bin(o1, Expr::bin(o2, Expr::bin(o3, Expr::bin(o4, a, b), c), d), e),
+        1 => Expr::bin(o1, a, Expr::bin(o2, b, Expr::bin(o3, c, Expr::bin(o4, d, e)))),
+        2 => Expr::bin(o1, Expr::bin(o2, a, b), Expr::bin(o3, c, Expr::bin(o4, d, e))),
+        3 => Expr::bin(o1, Expr::bin(o2, a, Expr::bin(o3, b, c)), Expr::bin(o4, d, e)),
+        4 => Expr::bin(o1, a, Expr::bin(o2, Expr::bin(o3, b, c), Expr::bin(o4, d, e))),
+        _ => Expr::bin(o1, Expr::bin(o2, Expr::bin(o3, a, b), Expr::bin(o4, c, d)), e),
+    })
+}
+
 /// number of entries of the `special` operand list of `enum_tree`
 const SPECIALS: u64 = 24;
 
@@ -746,19 +778,24 @@ impl Monitor for C02 {
     fn assumptions(&self) -> Vec<String> {
         vec!["the independent parser reflua defines 'the same tree' (validated against darklua's parser on 1500 corpus files: no acceptance disagreement)".into(), "parentheses are significant only around calls/varargs in a multi-value tail position".into()]
     }
-    fn exhaustive_note(&self, _tier: Tier) -> Option<String> {
-        Some(format!("tree flow enumerated completely: {} trees x 2 generators x 3 spans", enum_count()))
+    fn exhaustive_note(&self, tier: Tier) -> Option<String> {
+        if tier == Tier::Thorough {
+            Some(format!("tree flow enumerated completely: {} trees x 2 generators x 3 spans, plus all {} chains of four binary operators in six nestings", enum_count(), enum4_count()))
+        } else {
+            Some(format!("tree flow enumerated completely: {} trees x 2 generators x 3 spans", enum_count()))
+        }
     }
     fn plan(&self, tier: Tier) -> Plan {
         let mut me = C02::default();
         me.load();
-        let det = (enum_count() + BATCH - 1) / BATCH + me.corpus.len() as u64;
+        let d4 = if tier == Tier::Thorough { (enum4_count() + BATCH - 1) / BATCH } else { 0 };
+        let det = (enum_count() + BATCH - 1) / BATCH + me.corpus.len() as u64 + d4;
         Plan { deterministic: det, max_cases: u64::MAX, budget_s: if tier == Tier::Quick { 40.0 } else { 600.0 } }
     }
     fn floors(&self, _tier: Tier) -> Vec<(String, u64)> {
         vec![("trees_checked".into(), 5000), ("held".into(), 300)]
     }
-    fn gen(&mut self, _tier: Tier, seed: u64, index: u64) -> Option<Case> {
+    fn gen(&mut self, tier: Tier, seed: u64, index: u64) -> Option<Case> {
         self.load();
         let nb = (enum_count() + BATCH - 1) / BATCH;
         if index < nb {
@@ -767,6 +804,13 @@ impl Monitor for C02 {
         let i = (index - nb) as usize;
         if i < self.corpus.len() {
             return Some(json!({"kind": "text", "origin": format!("corpus:{}", self.corpus[i].name), "src": self.corpus[i].text, "spans": [80, 0, 17]}));
+        }
+        if tier == Tier::Thorough {
+            let j = (i - self.corpus.len()) as u64;
+            let nb4 = (enum4_count() + BATCH - 1) / BATCH;
+            if j < nb4 {
+                return Some(json!({"kind": "enum4", "from": j * BATCH, "to": ((j + 1) * BATCH).min(enum4_count())}));
+            }
         }
         let mut r = case_rng("C02", seed, index);
         if r.chance(1, 3) {
@@ -789,6 +833,17 @@ impl Monitor for C02 {
                     let Some(t) = enum_tree(i) else { break };
                     if let Err((sig, detail)) = self.check_tree(&t, &[80, 1, 7], cov) {
                         return Verdict::Violated { signature: sig, detail, narrowed: Some(json!({"kind": "enum", "from": i, "to": i + 1})) };
+                    }
+                }
+                Verdict::Held
+            }
+            Some("enum4") => {
+                let from = case["from"].as_u64().unwrap_or(0);
+                let to = case["to"].as_u64().unwrap_or(0);
+                for i in from..to {
+                    let Some(t) = enum4_tree(i) else { break };
+                    if let Err((sig, detail)) = self.check_tree(&t, &[80, 3], cov) {
+                        return Verdict::Violated { signature: sig, detail, narrowed: Some(json!({"kind": "enum4", "from": i, "to": i + 1})) };
                     }
                 }
                 Verdict::Held
@@ -832,6 +887,14 @@ impl Monitor for C02 {
                 let from = case["from"].as_u64().unwrap_or(0);
                 if case["to"].as_u64() == Some(from + 1) {
                     enum_tree(from)
+                } else {
+                    None
+                }
+            }
+            Some("enum4") => {
+                let from = case["from"].as_u64().unwrap_or(0);
+                if case["to"].as_u64() == Some(from + 1) {
+                    enum4_tree(from)
                 } else {
                     None
                 }
